@@ -148,7 +148,8 @@ func (s *sessionServer) RoundTrip(req *http.Request) (*http.Response, error) {
 // newOnlineAuthenticator builds the real auth.Authenticator wired to the model.
 func newOnlineAuthenticator(ss *sessionServer) (auth.Authenticator, error) {
 	key, _ := proxyRSAKey()
-	return auth.New(auth.Options{PrivateKey: key, Client: &http.Client{Transport: ss}})
+	// the URL function is wired the way proxy.New / Proxy.init wire it
+	return auth.New(auth.Options{PrivateKey: key, Client: &http.Client{Transport: ss}, HasJoinedURLFn: auth.CustomHasJoinedURL(nil)})
 }
 
 // cryptConn wraps a net.Conn with the harness's own AES/CFB8 (independent of Gate's).
